@@ -197,3 +197,41 @@ def histories(ctx, monitor, mechp, specs, first_job=0, budget_quick=60.0):
             if not ctx.mine_once(job) or not affordable(ctx, "request", n, budget_quick=budget_quick, k=k):
                 continue
             ask_again(ctx, monitor, mechp, name, fn, make, n, k, budget_s=None if ctx.thorough else 2 * budget_quick)
+
+
+def judge_carry_listing(ctx, monitor, mechp, case):
+    """A short listing that CROSSES a power of two (child numbers 2^b-3 .. 2^b+2, b = 1 .. 32): an implementation that steps
+    from one child number to the next by its own arithmetic (incrementing a serialised counter, reusing a prefix of the message)
+    goes wrong where a carry leaves the bytes it touches.  Real arithmetic, judged against the reference model."""
+    import btc_hd_wallet.bip32 as b32
+    from .ref import bip32 as rb32
+    tn, side, b = case["testnet"], case["side"], case["b"]
+    s = max(0, (1 << b) - 3)
+    e = min((1 << b) + 3, 1 << 32)
+    m = rb32.master(case["seed"])
+    refparent = rb32.derive(m, [84 + H, (1 if tn else 0) + H, H, 0])
+    if side == "prv":
+        parent = b32.PrvKeyNode.parse(refparent.xprv(rb32.version_for("prv", tn, 44)), testnet=tn)
+    else:
+        parent = b32.PubKeyNode.parse(refparent.xpub(rb32.version_for("pub", tn, 44)), testnet=tn)
+        e = min(e, H)
+    if e <= s:
+        return None
+    bad = []
+    try:
+        rows = list(parent.generate_children(interval=(s, e)))
+        if [r.index for r in rows] != list(range(s, e)):
+            bad.append(("child_numbers", list(range(s, e)), [r.index for r in rows]))
+        for r, i in zip(rows, range(s, e)):
+            try:
+                ref = rb32.ckd_priv(refparent, i) if side == "prv" else rb32.ckd_pub(refparent.neuter(), i)
+            except rb32.InvalidChild:
+                continue
+            want = ref.xprv(rb32.version_for("prv", tn, 44)) if side == "prv" else ref.xpub(rb32.version_for("pub", tn, 44))
+            got = r.extended_private_key() if side == "prv" else r.extended_public_key()
+            if got != want:
+                bad.append(("row_%d" % i, want[:24], got[:24]))
+                break
+    except Exception as ex:  # noqa
+        bad.append(("raised", None, ex))
+    return ctx.judge(monitor, not bad, case, None, bad[:2], cls="carry-listing|%s|2^%d" % (side, b), mech=mechp + ".carry_listing." + (bad[0][0].split("_")[0] if bad else ""))
